@@ -445,11 +445,22 @@ class Interp(object):
             b = st.body[0]
             if (isinstance(b, ast.Expr) and isinstance(b.value, ast.Call) and isinstance(b.value.func, ast.Attribute)
                     and b.value.func.attr == 'append' and len(b.value.args) == 1 and not b.value.keywords
-                    and isinstance(b.value.args[0], (ast.Name, ast.Constant)) and isinstance(b.value.func.value, ast.Name)):
+                    and (isinstance(b.value.args[0], (ast.Name, ast.Constant)) or self.merge == 'speculate')
+                    and isinstance(b.value.func.value, ast.Name)):
                 lst = self.eval(b.value.func.value, env)
                 if isinstance(lst, list):
-                    lst.append(Guarded(cond, self.eval(b.value.args[0], env)))
-                    return
+                    # 'speculate': the appended expression is evaluated whether or not the guard
+                    # holds (chosen by a contract whose callee is total and pure); if that
+                    # evaluation raises, fall back to forking on the guard
+                    try:
+                        val = self.eval(b.value.args[0], env)
+                    except (PyRaise, Undefined):
+                        if self.merge != 'speculate':
+                            raise
+                        val = None
+                    if val is not None:
+                        lst.append(Guarded(cond, val))
+                        return
         if cond if isinstance(cond, bool) else self.ctx.decide(cond):
             self.exec_block(st.body, env)
         else:
@@ -863,6 +874,18 @@ class Interp(object):
         left = self.eval(node.left, env)
         result = True
         n = len(node.ops)
+        if n > 1 and all(isinstance(x, (ast.Name, ast.Constant)) or (isinstance(x, ast.UnaryOp) and isinstance(x.operand, ast.Constant))
+                         for x in node.comparators):
+            # chained comparison of names/constants: no evaluation can be skipped observably,
+            # so the conjunction needs no fork
+            parts = []
+            for op, rn in zip(node.ops, node.comparators):
+                right = self.eval(rn, env)
+                parts.append(self.compare(op, left, right))
+                left = right
+            if all(isinstance(x, (bool, z3.BoolRef)) for x in parts):
+                return sym.And(*parts)
+            left = self.eval(node.left, env)
         for i, (op, rn) in enumerate(zip(node.ops, node.comparators)):
             right = self.eval(rn, env)
             r = self.compare(op, left, right)
